@@ -362,9 +362,19 @@ def run(chk: Check) -> None:
                % (nm, view, unparse(views[0]) if views else "none"), 3)
         chk.ob("R11.4", "CFG.%s:edge-order" % nm, _yields_edge_in_order(f), f.loc(),
                "CFG.%s must yield Edge(source, target, label) in the order the view produces them" % nm, 2)
-        guard = any(isinstance(n, ast.Compare) and isinstance(n.ops[0], ast.In) and
-                    attr_path(n.left) == (p,) and attr_path(n.comparators[0]) == (f.self_name, "_nxg")
-                    for n in walk_no_nested(f.node))
+        # what dominates the use of the view: "node in self._nxg" came out true (nested if, or a
+        # ``not in`` guard with an early exit)
+        guard = False
+        if views:
+            cfg_v = Flow(f.node)
+            try:
+                for t_, v_ in cfg_v.facts_at(cfg_v.node_of(views[0])):
+                    if isinstance(t_, ast.Compare) and len(t_.ops) == 1 and isinstance(t_.ops[0], (ast.In, ast.NotIn)) \
+                            and attr_path(t_.left) == (p,) and attr_path(t_.comparators[0]) == (f.self_name, "_nxg") \
+                            and v_ == isinstance(t_.ops[0], ast.In):
+                        guard = True
+            except AnalysisError:
+                guard = False
         chk.ob("R11.4", "CFG.%s:unknown-node" % nm, guard, f.loc(),
                "CFG.%s must yield nothing for a node without edges (networkx raises otherwise)" % nm, 1)
     n_sib = 0
